@@ -2,6 +2,7 @@ package executor
 
 import (
 	"context"
+	"sync"
 
 	"github.com/vektah/gqlparser/v2/ast"
 	"github.com/vektah/gqlparser/v2/gqlerror"
@@ -181,8 +182,21 @@ func (e *Executor) SetParserTokenLimit(limit int) {
 	e.parserTokenLimit = limit
 }
 
+var disableSuggestionOnce sync.Once
+
+// SetDisableSuggestion swaps gqlparser's (process-global) FieldsOnCorrectType rule for the variant
+// without suggestions. The swap happens once, at configuration time, never on the request path.
 func (e *Executor) SetDisableSuggestion(value bool) {
 	e.disableSuggestion = value
+	if value {
+		disableSuggestionOnce.Do(func() {
+			rule := rules.FieldsOnCorrectTypeRuleWithoutSuggestions
+			// add the replacement first so the rule set is never without a field-existence rule
+			validator.ReplaceRule(rule.Name, rule.RuleFunc)
+			verifhook.At("executor.rules.between")
+			validator.RemoveRule("FieldsOnCorrectType")
+		})
+	}
 }
 
 // parseQuery decodes the incoming query and validates it, pulling from cache if present.
@@ -222,16 +236,6 @@ func (e *Executor) parseQuery(
 		gqlErr, _ := err.(*gqlerror.Error)
 		errcode.Set(err, errcode.ValidationFailed)
 		return nil, gqlerror.List{gqlErr}
-	}
-
-	// swap out the FieldsOnCorrectType rule with one that doesn't provide suggestions
-	if e.disableSuggestion {
-		validator.RemoveRule("FieldsOnCorrectType")
-		verifhook.At("executor.rules.between")
-
-		rule := rules.FieldsOnCorrectTypeRuleWithoutSuggestions
-		// rule may already have been added
-		validator.ReplaceRule(rule.Name, rule.RuleFunc)
 	}
 
 	listErr := validator.Validate(e.es.Schema(), doc)
